@@ -171,6 +171,57 @@ func c19Wire(r *verifsim.Run) {
 
 var c19Base = time.Unix(1700000000, 0).UTC()
 
+// the ten numbers of a pre-parameters record and their field paths in
+// pb.PreParams (data=1 / paillierSK=1 / publicKey=1 / n=1 ...)
+var c19Numbers = []struct {
+	name string
+	path []int
+}{
+	{"paillier-N", []int{1, 1, 1, 1}},
+	{"paillier-LambdaN", []int{1, 1, 2}},
+	{"paillier-PhiN", []int{1, 1, 3}},
+	{"NTilde", []int{1, 2}},
+	{"H1", []int{1, 3}},
+	{"H2", []int{1, 4}},
+	{"Alpha", []int{1, 5}},
+	{"Beta", []int{1, 6}},
+	{"P", []int{1, 7}},
+	{"Q", []int{1, 8}},
+}
+
+// c19KnockOut edits the field at path: way 0 deletes it, 1 empties it, 2
+// replaces its bytes by zeros of the same length. ok=false if the path does
+// not exist.
+func c19KnockOut(msg []byte, path []int, way int) ([]byte, bool) {
+	fs, ok := verifadapt.PBParse(msg)
+	if !ok {
+		return nil, false
+	}
+	for i := range fs {
+		if int(fs[i].Num) != path[0] || fs[i].Data == nil {
+			continue
+		}
+		if len(path) > 1 {
+			sub, ok := c19KnockOut(fs[i].Data, path[1:], way)
+			if !ok {
+				return nil, false
+			}
+			fs[i].Data = sub
+			return verifadapt.PBBuild(fs), true
+		}
+		switch way {
+		case 0:
+			fs = append(fs[:i:i], fs[i+1:]...)
+		case 1:
+			fs[i].Data = []byte{}
+		default:
+			fs[i].Data = make([]byte, len(fs[i].Data))
+		}
+		return verifadapt.PBBuild(fs), true
+	}
+	return nil, false
+}
+
 func c19PreParamsDisk(r *verifsim.Run) {
 	tp := r.T
 	logger := log.Logger("verif-c19-preparams")
@@ -199,6 +250,33 @@ func c19PreParamsDisk(r *verifsim.Run) {
 	r.Probe("record:preparams")
 	intact := map[string]bool{}
 	var kinds []string
+	knockOut := tp.Chance("knock-out-one-number", 1, 3)
+	if knockOut {
+		// systematic damage: exactly ONE of the ten numbers of ONE record is
+		// deleted / emptied / zeroed, everything else stays intact
+		which := tp.Choose("knock-out-which", len(c19Numbers))
+		way := tp.Choose("knock-out-how", 3)
+		fi := tp.Choose("knock-out-file", len(files))
+		num := c19Numbers[which]
+		wayName := []string{"deleted", "empty", "zero-bytes"}[way]
+		nb, ok := c19KnockOut(files[fi].Data, num.path, way)
+		if !ok {
+			r.Inconclusive("saved-preparams-not-as-expected")
+			return
+		}
+		disk.PutCurrent(files[fi].Dir, files[fi].Name, nb)
+		r.Fault("disk:knock-out-" + wayName)
+		r.Probe("preparams-number-knocked-out:" + num.name)
+		for i, f := range files {
+			if i != fi {
+				intact[f.Name] = true
+				kinds = append(kinds, "intact")
+			} else {
+				kinds = append(kinds, "knock-out:"+num.name+":"+wayName)
+			}
+		}
+		files = nil
+	}
 	for _, f := range files {
 		nb, kind := verifadapt.CorruptFile(tp, f.Data)
 		kinds = append(kinds, kind)
